@@ -104,6 +104,7 @@ type Gen struct {
 	// feature switches
 	NoSubq, NoStrings, NoAgg, NoSetOp, NoOuter bool
 	AllowMod   bool // generate the % operator
+	IndexAll   bool // every table gets single-column indexes on its first two columns (join-algorithm coverage)
 	MaxJoin    int  // maximum number of table instances in one FROM clause (default 2)
 	CIFuncs    bool // allow string functions over _ci columns
 	CIDistinct bool // allow DISTINCT / COUNT(DISTINCT) / set operations over _ci columns (C07's subject)
@@ -179,6 +180,12 @@ func (g *Gen) Schema(n int) []*TableDef {
 			}
 			t.Indexes = append(t.Indexes, ix)
 			t.Unique = append(t.Unique, false)
+		}
+		if g.IndexAll {
+			for c := 0; c < 2 && c < w; c++ {
+				t.Indexes = append(t.Indexes, []int{c})
+				t.Unique = append(t.Unique, false)
+			}
 		}
 		nr := g.pick(g.MaxRows + 1)
 		seen := map[string]bool{}
@@ -789,4 +796,70 @@ func hasSelfJoin(f *From) bool {
 		}
 	}
 	return false
+}
+
+// OuterJoinResidual builds `SELECT a.*, b.* FROM ta a LEFT|RIGHT|INNER JOIN tb b ON a.ci = b.cj AND <residual>`:
+// an equality on indexed integer columns (so merge / lookup / hash joins all apply) plus a residual
+// predicate that is not a merge condition, over tables with duplicate join keys.
+func (g *Gen) OuterJoinResidual(depth int) *Query {
+	q, _ := g.OuterJoinResidualPair(depth)
+	return q
+}
+
+// OuterJoinResidualPair also returns the same join with the residual predicate negated: whichever way
+// the rows of a duplicate-key group are ordered, one of the two has a passing row before a failing one.
+func (g *Gen) OuterJoinResidualPair(depth int) (*Query, *Query) {
+	ta := g.Tables[g.pick(len(g.Tables))]
+	tb := g.Tables[g.pick(len(g.Tables))]
+	icol := func(t *TableDef) int {
+		var c []int
+		for i, ci := range t.Cols {
+			if ci.Ty == "i" && i < 2 {
+				c = append(c, i)
+			}
+		}
+		if len(c) == 0 {
+			return 0
+		}
+		return c[g.pick(len(c))]
+	}
+	ca, cb := icol(ta), icol(tb)
+	all := append(append([]ColInfo{}, ta.Cols...), tb.Cols...)
+	eq := Op("eq", Col(0, ca+1, "none"), Col(0, len(ta.Cols)+cb+1, "none"))
+	on := eq
+	if g.chance(0.8) {
+		// residual over the right side (and sometimes both sides)
+		var res *Expr
+		if g.chance(0.8) {
+			rc := len(ta.Cols) + g.pick(len(tb.Cols))
+			if all[rc].Ty == "i" {
+				res = Op(cmpOps[g.pick(6)], Col(0, rc+1, "none"), Lit(g.IntVal(0)))
+			}
+		}
+		if res == nil {
+			res = g.BoolExprNoSubq(Scopes{all}, depth)
+		}
+		on = Op("and", eq, res)
+	}
+	jt := []string{"left", "left", "left", "right", "right", "inner"}[g.pick(6)]
+	var proj []*Expr
+	for i, c := range all {
+		proj = append(proj, Col(0, i+1, c.Coll))
+	}
+	var where *Expr
+	if g.chance(0.3) {
+		where = g.BoolExprNoSubq(Scopes{all}, 1)
+	}
+	q := Select(Join(jt, Table(ta.Name, len(ta.Cols)), Table(tb.Name, len(tb.Cols)), on), where, proj...)
+	if g.chance(0.3) {
+		q.Order = []Ord{{I: 1 + g.pick(len(all)), Desc: g.chance(0.5)}}
+		q.OrdAlias = true
+	}
+	on2 := on
+	if on.Op == "and" {
+		on2 = Op("and", on.A[0], Op("not", on.A[1]))
+	}
+	q2 := Select(Join(jt, Table(ta.Name, len(ta.Cols)), Table(tb.Name, len(tb.Cols)), on2), where, proj...)
+	q2.Order, q2.OrdAlias = q.Order, q.OrdAlias
+	return q, q2
 }
